@@ -15,7 +15,9 @@ def S(*opts):
 
 
 def I(lo=0, hi=1000):
-    return lambda r: r.randint(lo, hi)
+    # a third of the values sit on the range ends and on the protocol's usual defaults (0, 50, 100)
+    special = [x for x in (lo, hi, 0, 1, 49, 50, 51, 100) if lo <= x <= hi]
+    return lambda r: r.choice(special) if r.random() < 0.35 else r.randint(lo, hi)
 
 
 B = lambda r: r.random() < 0.5
